@@ -255,6 +255,7 @@ fn op(subj: Subj, prof: &Prof, pc: PlanCtx) -> BoxedStrategy<Op> {
         v.push((6, pl.clone().prop_map(Op::TryPush).boxed()));
         v.push((3, (1u8..12, pl.clone()).prop_map(|(k, p)| Op::PushMany(k, p)).boxed()));
         if subj.is_ordered() {
+            v.push((3, (1u8..10, pl.clone()).prop_map(|(k, p)| Op::Extend(k, p)).boxed()));
             v.push((6, pl.clone().prop_map(Op::PushFront).boxed()));
             v.push((3, pl.clone().prop_map(Op::TryPushFront).boxed()));
         }
